@@ -430,6 +430,7 @@ namespace
 		{
 			i = -1;
 		}
+		runtime.scalar_decimals(i);
 		sqf::types::d_scalar::set_decimals(i);
 		return {};
 	}
